@@ -61,6 +61,8 @@ def node_failures(sp, dt, order):
         return out + ["raises:normal:%s" % type(e.__cause__ or e).__name__], None
     ref = Hm @ M
     scale = max(np.linalg.norm(M) * np.linalg.norm(Hm), 1e-30)
+    if Nm.shape == ref.shape and not np.linalg.norm(Nm - ref) <= tol(dt) * scale:
+        scale = max(scale, LO.tree_opscale(sp, dt) ** 2)     # operands' scale, not the cancelling result's
     if Nm.shape != ref.shape:
         out.append("normal-matrix-shape")
     elif not np.linalg.norm(Nm - ref) <= tol(dt) * scale:
